@@ -1,6 +1,7 @@
 import logging
 import abc
 from .. import components
+from ..util import PAGE_SIZE
 
 logger = logging.getLogger("instantiate")
 
@@ -106,8 +107,18 @@ class ModuleInstance(abc.ABC):
         )
         data = self._datas[data_idx]
         memory = self._memories[memory_idx]
+        # The operands are unsigned 32 bit values:
+        dst, src, n = dst & 0xFFFFFFFF, src & 0xFFFFFFFF, n & 0xFFFFFFFF
+        # Check bounds up front, nothing is written when trapping:
+        if src + n > len(data) or dst + n > memory.size() * PAGE_SIZE:
+            raise WasmTrapException("out of bounds memory access")
         blob = data[src : src + n]
         memory.write(dst, blob)
+
+    def data_drop(self, data_idx: int) -> None:
+        """Drop a data segment: its length becomes 0."""
+        logger.debug(f"data_drop({data_idx=})")
+        self._datas[data_idx] = bytes()
 
     def memory_copy(
         self, memory_idx: int, memory_idx2: int, dst: int, src: int, n: int
@@ -118,14 +129,23 @@ class ModuleInstance(abc.ABC):
         )
         assert memory_idx == memory_idx2
         memory = self._memories[memory_idx]
+        # The operands are unsigned 32 bit values:
+        dst, src, n = dst & 0xFFFFFFFF, src & 0xFFFFFFFF, n & 0xFFFFFFFF
+        size = memory.size() * PAGE_SIZE
+        if src + n > size or dst + n > size:
+            raise WasmTrapException("out of bounds memory access")
         blob = memory.read(src, n)
         memory.write(dst, blob)
 
     def memory_fill(self, memory_idx: int, dst: int, val: int, n: int) -> None:
         logger.debug(f"memory_fill({memory_idx=}, {dst=}, {val=}, {n=})")
         memory = self._memories[memory_idx]
+        # The operands are unsigned 32 bit values:
+        dst, n = dst & 0xFFFFFFFF, n & 0xFFFFFFFF
+        if dst + n > memory.size() * PAGE_SIZE:
+            raise WasmTrapException("out of bounds memory access")
         val = val & 0xFF
-        blob = bytes([val] * n)
+        blob = bytes([val]) * n
         memory.write(dst, blob)
 
     @abc.abstractmethod
@@ -179,7 +199,10 @@ class ModuleInstance(abc.ABC):
                     assert isinstance(memory_index, int)
                     data = definition.data
                     initializations.append((memory_index, offset, data))
-                self._datas.append(definition.data)
+                    # An active segment is dropped once it is copied:
+                    self._datas.append(bytes())
+                else:
+                    self._datas.append(definition.data)
 
         # Initialize various parts:
         for memory_index, offset, data in initializations:
